@@ -264,7 +264,63 @@ fn ret_c_int(r: c_long) -> c_int {
     r as c_int
 }
 
+thread_local! {
+    /// File descriptors opened by this OS thread while a leak guard is active (schedsim: one
+    /// execution = one OS thread; a failed execution leaks its tasks and with them their files).
+    static LEAK_GUARD: RefCell<Option<Vec<c_int>>> = const { RefCell::new(None) };
+}
+
+/// Start noting every descriptor this thread opens.
+pub fn leak_guard_begin() {
+    let _ = LEAK_GUARD.try_with(|g| *g.borrow_mut() = Some(Vec::new()));
+}
+
+/// Close every noted descriptor that is still open; returns how many there were.
+pub fn leak_guard_end() -> usize {
+    let fds = LEAK_GUARD.try_with(|g| g.borrow_mut().take()).ok().flatten().unwrap_or_default();
+    for fd in fds.iter() {
+        unsafe {
+            libc::syscall(libc::SYS_close, *fd);
+        }
+    }
+    fds.len()
+}
+
+fn note_open(fd: c_int) {
+    if fd >= 0 {
+        let _ = LEAK_GUARD.try_with(|g| {
+            if let Ok(mut g) = g.try_borrow_mut() {
+                if let Some(v) = g.as_mut() {
+                    v.push(fd);
+                }
+            }
+        });
+    }
+}
+
+fn note_close(fd: c_int) {
+    let _ = LEAK_GUARD.try_with(|g| {
+        if let Ok(mut g) = g.try_borrow_mut() {
+            if let Some(v) = g.as_mut() {
+                if let Some(i) = v.iter().rposition(|x| *x == fd) {
+                    v.swap_remove(i);
+                }
+            }
+        }
+    });
+}
+
 unsafe fn do_open(dirfd: c_int, path: *const c_char, flags: c_int, mode: mode_t) -> c_int {
+    let fd = do_open_inner(dirfd, path, flags, mode);
+    // directory descriptors are handed to fdopendir and closed by closedir inside libc, which
+    // does not come back through `close` above: they are not noted
+    if (flags & libc::O_DIRECTORY) == 0 {
+        note_open(fd);
+    }
+    fd
+}
+
+unsafe fn do_open_inner(dirfd: c_int, path: *const c_char, flags: c_int, mode: mode_t) -> c_int {
     let interesting = with_ctx(|ctx| ctx.rel(&abs_path(dirfd, cbytes(path)))).flatten();
     let rel = match interesting {
         Some(rel) => rel,
@@ -331,6 +387,7 @@ pub unsafe extern "C" fn openat(
 
 #[no_mangle]
 pub unsafe extern "C" fn close(fd: c_int) -> c_int {
+    note_close(fd);
     with_ctx(|ctx| {
         ctx.fds.remove(&fd);
     });
